@@ -172,6 +172,10 @@ def gen_steps(rng, obj, n, *, bad_rate=0.0, malformed_rate=0.0, setter_bias=1.0,
                 rng.chance(solver_fault_rate * 3):
             k = rng.choice([1, 1, 2, 3, 5, 9, 10])
             st["solver_script"] = [True] * k
+            if rng.chance(0.3):
+                # the first solver call of the operation succeeds, a later one fails (a setter
+                # that measures, rescales and measures again)
+                st["solver_script"] = [False] + [True] * rng.choice([1, 3, 10])
         steps.append(st)
     return steps
 
